@@ -134,7 +134,8 @@ func (c *StringScanner) PeekColumn() int {
 		return 0
 	}
 
-	if c.isColumn(charAt) {
+	// Reading the end-of-input slot does not change the column
+	if charAt != -1 && c.isColumn(charAt) {
 		return c.column + 1
 	}
 	return c.column
